@@ -184,6 +184,10 @@ def _check_hist(case):
         except Exception as e:  # noqa
             raise Violation("constructor-raised", f"Universe(laws=L{sel}) for U{k}: {e!r}")
         U.append(u)
+        if k and (ucls[0] + lcls[0] + k) % 2:
+            # a universe that contains another universe as a member (nesting must not matter to the binding)
+            u.add_vertex(U[0])
+            classes.add("universe-containing-a-universe")
         if sel >= 0:
             require(u.laws is L[sel], "constructor-post", f"U{k}.laws is not the law set passed")
             require(L[sel].applies_to is u, "constructor-post", f"L{sel}.applies_to is not U{k}")
@@ -283,8 +287,13 @@ def _check_attrs(case):
         # the caller passes read-only VIEWS of dictionaries it keeps (and changes later)
         import types
 
+        import collections
+
         backing = wl
-        wl = {k: types.MappingProxyType(v) for k, v in backing.items()}
+        if case["vals"][1] % 2:
+            wl = {k: types.MappingProxyType(v) for k, v in backing.items()}
+        else:
+            wl = {k: collections.ChainMap({}, v) for k, v in backing.items()}     # the rules live in a lower layer
     # rule values: truthy/falsy values of several types must read back unchanged (identity)
     pool = [True, False, 0, 1, "yes"]
     a, b, c, d = (pool[v] if flag else bool(v % 2) for flag, v in zip(case["flags"], case["vals"]))
